@@ -48,6 +48,13 @@ def special_points(cls, kw, rng, nps):
             r = rng.choice(vals(r0) + [0.05 * r0, nudge(0.05 * r0, 1), nudge(0.05 * r0, -1), 0.0, 1e-300])
             z = rng.choice(vals(h) + [0.0, 1e-200, -1e-310, nps.uniform(-2, 2) * max(h, r0)])
             pts.append([r * np.cos(ph), r * np.sin(ph), z])
+        # close to the wire / the edge but outside the 1e-15 masks: relative offsets 1e-14 ... 1e-6 in r and z
+        for _ in range(6):
+            e1, e2 = 10.0 ** rng.choice([-14, -12, -10, -9, -8, -6]), 10.0 ** rng.choice([-14, -12, -10, -9, -8, -6])
+            ph = rng.choice([0.0, np.pi / 2, nps.uniform(0, 6.28)])
+            r = r0 * (1 + rng.choice([-1, 0, 1]) * e1)
+            z = (h if h else 0.0) * rng.choice([-1, 1]) + rng.choice([-1, 1]) * e2 * r0
+            pts.append([r * np.cos(ph), r * np.sin(ph), z])
     elif cls == "CylinderSegment":
         r1, r2, h, p1, p2 = kw["dimension"]
         for _ in range(14):
